@@ -342,8 +342,10 @@ class Ref:
             return False
         for name, T, req in self.params(C):
             # K7: a key stands for the parameter it equals after its dashes are replaced by underscores
-            cands = [name, name.replace('_', '-')] + [a[2] for a, b in n[2] if a[0] == 's' and isinstance(a[2], str)
-                                                      and a[2].replace('-', '_') == name]
+            # exact name, fully dashed name, then partly dashed spellings - in an order that does not depend on the
+            # order of the keys in the document (reordering the keys of a class mapping changes nothing, C13)
+            cands = [name, name.replace('_', '-')] + sorted(a[2] for a, b in n[2] if a[0] == 's' and isinstance(a[2], str)
+                                                            and a[2].replace('-', '_') == name)
             for nm in cands:
                 vs = [b for a, b in n[2] if a[2] == nm]
                 if vs:
